@@ -163,7 +163,11 @@ type lockerSource struct {
 }
 
 func (l *lockerSource) Read(p []byte) (int, error) {
-	l.Lock()
+	// (an uncontended acquisition is not a scheduling point: a device read in
+	// one-byte pieces would otherwise cost three steps per byte)
+	if !l.TryLock() {
+		l.Lock()
+	}
 	defer l.Unlock()
 	return l.dev.Read(p)
 }
